@@ -292,11 +292,25 @@ def one_run(files, r):
     if err:
         P.append(("C52.log.malformed_or_interleaved", "%s: tfel-check.log %s\n%s" % (cmdline, err, ANSI.sub("", log)[-1500:])))
     names = [b[0] for b in blocks]
+    lost = [nme for nme in exp_doc if nme not in names]
+    ended = set(re.findall(r"^\* end of test '(.*?)'", out, re.M))
+    if not err and lost and rc != 0 and any(nme not in ended for nme in lost):
+        # the process left through exit(EXIT_FAILURE) before these tests ended: ProcessManager::terminateHandler, the
+        # SIGSEGV/SIGABRT... handler installed by ProcessManager::stopOnSignals, turns the crash of the known race into
+        # "exit status 1" and the buffered tfel-check.log is lost
+        res["status"] = "signal"
+        res["problems"].append((K_RACE, "%s: exit status %d with a truncated tfel-check.log (%d of %d blocks; tests %s never "
+                                "ended on the terminal either): crash caught by ProcessManager::terminateHandler\n%s" % (
+                                    cmdline, rc, len(names), len(exp_doc), [n for n in lost if n not in ended][:4], out[-500:])))
+        shutil.rmtree(root, ignore_errors=True)
+        return res
     if not err:
         for nme in exp_doc:
             if names.count(nme) != 1:
-                P.append(("C52.log.block_count", "%s: %d blocks for %s in tfel-check.log (files: %s)" % (
-                    cmdline, names.count(nme), nme, sorted(exp_doc))))
+                P.append(("C52.log.block_count", "%s: %d blocks for %s in tfel-check.log (files: %s); exit status %s, "
+                          "lines of the terminal output about it: %s" % (
+                              cmdline, names.count(nme), nme, sorted(exp_doc), rc,
+                              [l for l in out.split("\n") if nme in l or "rror" in l or "xception" in l][:6])))
         for nme in set(names) - set(exp_doc):
             P.append(("C52.log.block_count", "%s: unexpected block %s" % (cmdline, nme)))
     verdicts = {}
